@@ -1,8 +1,9 @@
 (* C09 - reference targets are exactly the addressable declarations the schema describes
-   (partial: the address construction of blocks is modelled and proved; collection as a whole is
-   decided on the implementation against generator ground truth). *)
+   (partial: the address construction of blocks and the value-level descent of addressable attributes
+   are modelled and proved; block bodies "as data" / inferred bodies are decided on the implementation
+   against generator ground truth). *)
 From Coq Require Import String List ZArith Bool.
-From HV Require Import Model.Addr Model.Collect Proofs.CollectProofs.
+From HV Require Import Base.Pos Model.Addr Model.Schema Model.Ref Model.Collect Model.ValueTargets Proofs.CollectProofs Proofs.ValueTargetsProofs.
 Import ListNotations.
 
 Theorem C09_static_step_contributes_its_name : forall labels attr_val i n rest acc,
@@ -36,3 +37,64 @@ Theorem C09_missing_label_no_address : forall labels attr_val pre idx rest i acc
   resolve_steps labels attr_val i (pre ++ ALabel idx :: rest) acc = None.
 Proof. exact missing_label_no_address. Qed.
 Print Assumptions C09_missing_label_no_address.
+
+(* ---- addressable attributes: the value-level descent (Model/ValueTargets.v) ---- *)
+
+(* Every target collected for an addressable attribute is declared at the attribute's address, inside
+   the attribute's range; every nested target, at any depth, is declared exactly one step below its
+   parent and inside its parent's range ([good], Proofs/ValueTargetsProofs.v).  Hypotheses: the
+   constraint contains no Reference that itself declares a target (see the refutation below); the
+   parser's tree nests (children inside parents, a key before its value). *)
+Theorem C09_attribute_targets_nest : forall fuel name attr_rng name_rng aa c e ts a,
+  no_ref_decl c = true -> wf_expr e -> inside (e_rng e) attr_rng ->
+  resolve_attr_addr name (aa_steps aa) = Some a ->
+  attr_targets fuel name attr_rng name_rng (Some aa) c e = Some ts ->
+  Forall (good a attr_rng) ts.
+Proof. exact attr_targets_nest. Qed.
+Print Assumptions C09_attribute_targets_nest.
+
+(* nothing is collected for an attribute the schema does not mark addressable *)
+Theorem C09_attribute_without_address_declares_nothing : forall fuel name attr_rng name_rng c e ts,
+  no_ref_decl c = true -> wf_expr e ->
+  attr_targets fuel name attr_rng name_rng None c e = Some ts -> ts = [].
+Proof. exact attr_without_address_declares_nothing. Qed.
+Print Assumptions C09_attribute_without_address_declares_nothing.
+
+(* list index = source order *)
+Theorem C09_list_index_is_source_position : forall n ec c r v elems ts,
+  value_targets (S n) (CList (Some ec) 0 0) (Some c) (ETuple r v elems) = Some ts ->
+  exists parts,
+    ts = whole_coll TList (Some ec) c (ETuple r v elems) (concat parts) /\
+    length parts = length elems /\
+    forall k x, nth_error elems k = Some x ->
+      value_targets n ec (Some (ctx_push (ctx_copy c) (SIdxNum (Z.of_nat k)) None None)) x = Some (nth k parts []).
+Proof. exact list_elements_by_position. Qed.
+Print Assumptions C09_list_index_is_source_position.
+
+(* map key = written key; the entry's range is key .. value, its definition range the key *)
+Theorem C09_map_key_is_written_key : forall n ec c r v items ts,
+  value_targets (S n) (CMap (Some ec) "" false 0 0) (Some c) (EObject r v items) = Some ts ->
+  exists parts,
+    ts = whole_coll TMap (Some ec) c (EObject r v items) (sort_targets (concat parts)) /\
+    length parts = length items /\
+    forall j i, nth_error items j = Some i ->
+      match ti_key i with
+      | None => nth j parts [] = []
+      | Some k => value_targets n ec (Some (ctx_push (ctx_copy c) (SIdxStr k)
+                                            (Some (range_between (ti_krng i) (e_rng (ti_val i)))) (Some (ti_krng i))))
+                                (ti_val i) = Some (nth j parts [])
+      end.
+Proof. exact map_items_by_key. Qed.
+Print Assumptions C09_map_key_is_written_key.
+
+(* The nesting rule is FALSE when a Reference constraint that declares a target (Reference.Address)
+   sits below an addressable collection: attr = [aws.west, "x"] under
+   list(one-of(reference declaring a provider alias, string)) yields the target var.attr with the nested
+   target aws.west.  Replayed on the implementation: known finding
+   C09/nested-address-not-one-step-below/reference-declaration-inside-addressable-collection. *)
+Theorem C09_nesting_refuted_below_reference_declarations :
+  exists t n,
+    attr_targets 10 "attr" (rz 1 1 0 1 23 22) (rz 1 1 0 1 5 4) (Some witness_addr) witness_cons witness_expr = Some [t] /\
+    In n (t_nested t) /\ wf_expr witness_expr /\ ~ (exists s, t_addr n = (t_addr t ++ [s])%list).
+Proof. exact nested_reference_declaration_refuted. Qed.
+Print Assumptions C09_nesting_refuted_below_reference_declarations.
